@@ -119,4 +119,36 @@ example : (asCalls {} [.format (List.replicate 600 'x')]).map (fun d => (d.alloc
   decide +kernel
 
 
+/-- `parser_total_partial`: "standard conversions mixed into the format are unaffected", in the part that is
+    proved: a format string in which none of the characters `Z Q N M F n a A e E f g G` occurs (no MPIR type,
+    no `%n`, no float conversion), whatever else it contains (flags, `*`, every length modifier, `%%`, `'`,
+    unknown conversion characters), is consumed to its end and handed to the C library in one piece,
+    unchanged, with the original argument list; nothing else is written and nothing is stored.
+    FULL STATEMENT (not proved here, covered by the correspondence run on mixed formats only): for every
+    format string the calls are the maximal pieces between MPIR conversions, each piece unchanged (with `M`
+    replaced by `ll`) and given the arguments not yet consumed, interleaved with the MPIR conversions'
+    own output; `%n` stores the running total. -/
+theorem parser_total_partial (fmt : List Char) (args : List Arg) (h : ∀ c ∈ fmt, c ∉ mpirChars)
+    (r : DoprntResult) (hr : doprnt fmt args = some r) :
+    r.stores = [] ∧
+    ((fmt = [] ∧ r.calls = [] ∧ r.retval = 0) ∨
+     ∃ out, libcFormat fmt args = some out ∧ r.calls = [.format out] ∧ r.retval = out.length) := by
+  unfold doprnt doprntG at hr
+  cases hrun : run false fmt .text { ap := args, lastAp := args } with
+  | none => rw [hrun] at hr; cases hr
+  | some st =>
+    rw [hrun] at hr
+    simp only [Option.some.injEq] at hr
+    subst hr
+    have := run_forward args fmt .text { ap := args, lastAp := args } h trivial rfl rfl rfl rfl st hrun
+    simpa using this
+
+-- non-vacuity: a format with flags, `*`, length modifiers and %% is forwarded whole
+example : (doprnt "a%-*ld|%#hhx%%%5s".toList [.int 6, .int (-42), .int 511, .str "xy".toList]).map (fun r => r.calls) =
+    some [.format "a-42   |0xff%   xy".toList] := by decide +kernel
+-- and with an MPIR conversion in the middle the two outer pieces go to the C library with the right arguments
+example : (doprnt "%d<%Zx>%s".toList [.int 7, .mpz 255, .str "z".toList]).map (fun r => r.calls) =
+    some [.format ['7', '<'], .memory ['f', 'f'], .format ['>', 'z']] := by decide +kernel
+
+
 end Mpir.Printf
